@@ -100,6 +100,43 @@ def job_fixed_map(res, what, n, B, it, dt, fptype, before=None):
     cells = outB[b * n * n:(b + 1) * n * n]
     witness(res, '%s: bunch %d output depends on its data' % (what, b), [], z3.Or(*[z3.substitute(c, (d0, d2)) != c for c in cells]))
 
+def job_wake_kick(res, n, N, spacing, buckets, kseed=3):
+    """the wake kick map of main (WakePotentialMap built on a real ElectricField, equal charge shares): after update() with an arbitrary wake potential per bunch and cell, apply() moves every
+    bunch by ITS OWN rows - the target cells of bunch b do not change when the wake potential or the data of another bunch change, and they do depend on bunch b's own wake"""
+    import field_common
+    bld = field_common.field_build(); mod = load_module(bld, field_common.FIELD_MODS)
+    snap, R, pre, plans, calib = field_common.field_world(bld, n, N, spacing, buckets)
+    nb = len(buckets)
+    wp = {}
+    def wake_stub(ex, st, fr, a, ins):      # ElectricField::wakePotential(): an arbitrary potential (C06 decides its value); integer part fixed per row, fraction symbolic
+        p = st.extra.get('wp_buf')
+        if p is None:
+            p = ex.malloc(st, 4 * nb * n); st.extra['wp_buf'] = p
+            for b in range(nb):
+                for x in range(n):
+                    f = z3.Real('w_%d_%d' % (b, x)); wp[(b, x)] = f
+                    st.sym[p + 4 * (b * n + x)] = (4, 'f', f + krow(kseed, b, x))
+        return p
+    ex = Exec(mod, snap, RealDom(), {'_ZN4vfps13ElectricField13wakePotentialEv': wake_stub}); st = State()
+    for b in range(nb):
+        for x in range(n): st.pc += [z3.Real('w_%d_%d' % (b, x)) >= 0, z3.Real('w_%d_%d' % (b, x)) < 1]; st.ranges['w_%d_%d' % (b, x)] = (Fraction(0), Fraction(1))
+    D = [[z3.Real('d%d_%d' % (b, i)) for i in range(n * n)] for b in range(nb)]
+    for b in range(nb):
+        for i in range(n * n): st.sym[R['data_in'] + 4 * (b * n * n + i)] = (4, 'f', D[b][i]); st.pc += [D[b][i] >= -1, D[b][i] <= 1]
+    outs = []
+    for s0 in run_paths(ex, st, 'e_wpm_update', [R['wpm']]): outs += run_paths(ex, s0, 'e_wpm_apply', [R['wpm']])
+    account(res, ex, mod, outs)
+    if len(outs) != 1: raise Unsupported('expected a single path, got %d' % len(outs))
+    s = outs[0]; cells = get_reals(ex, s, R['data_out'], nb * n * n)
+    for b in range(nb):
+        mine = cells[b * n * n:(b + 1) * n * n]
+        subs = [(wp[(bb, x)], z3.Real('w_alt_%d_%d' % (bb, x))) for bb in range(nb) if bb != b for x in range(n)] + [(D[bb][i], z3.Real('d_alt_%d_%d' % (bb, i))) for bb in range(nb) if bb != b for i in range(n * n)]
+        def cex(m, b=b): return {'replay': 'structural', 'bunch': b, 'n': n, 'buckets': list(buckets)}
+        prove(res, 'wake kick map n=%d buckets %s (equal shares): the %d target cells of bunch %d are unchanged when wake potential and data of the other bunches change' % (n, list(buckets), n * n, b),
+              s.pc, z3.Or(*[z3.substitute(c, *subs) != c for c in mine]), key='wake-kick-own-rows', cex_fn=cex)
+        own = wp[(b, n // 2)]
+        witness(res, 'wake kick map: bunch %d depends on its own wake potential (row %d)' % (b, n // 2), list(s.pc) + [z3.Real('w_own_alt') >= 0, z3.Real('w_own_alt') < 1], z3.Or(*[z3.substitute(c, (own, z3.Real('w_own_alt'))) != c for c in mine]))
+
 WHAT2RUN = {'rflin': 'rflin', 'rfsin': 'rfsin', 'drift': 'drift', 'fpm': 'fp', 'idm': 'identity'}
 
 def replayer(bld):
@@ -140,6 +177,7 @@ def main(tier):
     hn, hB, hit = (6, 2, 3) if tier == 'quick' else (8, 3, 4)
     jobs += [(job_fixed_map, (w, hn, hB, hit, 3, 3, b4)) for w, b4 in (('rflin', 'kmy'), ('rfsin', 'kmy'), ('drift', 'kmy'), ('fpm', 'kmy'), ('drift', 'kmx'), ('fpm', 'rflin'), ('idm', 'kmy'))]
     jobs += [(job_generic_kick, (hn, hB, hit, 1, 6, b4)) for b4 in ('rflin', 'fpm', 'drift')] + [(job_generic_kick, (hn, hB, hit, 0, 7, 'rflin'))]
+    jobs += [(job_wake_kick, (6, 16, 7, (1, 0))), (job_wake_kick, (5, 20, 6, (0, 2, 1)))]      # the wake kick map itself (main's WakePotentialMap), bunches of equal charge
     chk.bounds = {'grid n': sorted({a[0] for a in kicks}), 'bunches B': sorted({a[1] for a in kicks}), 'interpolation points': sorted({a[2] for a in kicks}),
                   'displacement': 'per row k+f, k in [-2,2] fixed per row (seeded), f symbolic real in [0,1)', 'data': 'every cell of every bunch a real symbol in [-1,1]',
                   'RF/drift/FP parameters': 'the concrete values the harness constructs with (angle 0.1, f_RF 499 MHz, V 1.4 MV, slip {0.11,0.013,0.0017}, e1 0.01)'}
